@@ -194,7 +194,8 @@ pub fn run_rotation(w: &mut World, spec: &RotationSpec) {
                             None => ok("nothing to verify"),
                             Some((by, tok)) => {
                                 let r = be.unseal(Purp::Public, key(Kind::Public), tok, PayloadKind::Raw, FootKind::Unit, aad, &VSpec::None, false);
-                                match (r.is_ok(), *by == who) {
+                                // two principals may hold the same key (v1 keys come from a small pool)
+                                match (r.is_ok(), *by == who || mats[*by].raw[2] == m.raw[2]) {
                                     (true, true) | (false, false) => ok("verified as expected"),
                                     (false, true) => ("valid-token-rejected-after-rotation".into(), format!("token of principal {by} rejected by that principal's current public key object: {}", r.class())),
                                     (true, false) => ("token-accepted-under-another-key".into(), format!("token of principal {by} accepted by the public key object of principal {who}")),
@@ -213,7 +214,7 @@ pub fn run_rotation(w: &mut World, spec: &RotationSpec) {
                             None => ok("nothing to decrypt"),
                             Some((by, tok)) => {
                                 let r = be.unseal(Purp::Local, key(Kind::Local), tok, PayloadKind::Raw, FootKind::Unit, aad, &VSpec::None, false);
-                                match (r.is_ok(), *by == who) {
+                                match (r.is_ok(), *by == who || mats[*by].raw[0] == m.raw[0]) {
                                     (true, true) | (false, false) => ok("decrypted as expected"),
                                     (false, true) => ("valid-token-rejected-after-rotation".into(), format!("local token of principal {by} rejected by that principal's current key object")),
                                     (true, false) => ("token-accepted-under-another-key".into(), format!("local token of principal {by} accepted by the key object of principal {who}")),
@@ -251,7 +252,7 @@ pub fn run_rotation(w: &mut World, spec: &RotationSpec) {
                                     Out::Ok(k) => be.key_raw(Kind::Local, k).ok().as_deref() == Some(&mats[*by].raw[0][..]),
                                     _ => false,
                                 };
-                                match (r.is_ok(), *by == who) {
+                                match (r.is_ok(), *by == who || mats[*by].raw[4] == m.raw[4]) {
                                     (true, true) if same_key => ok("unsealed"),
                                     (true, true) => ("different-key-unsealed".into(), format!("sealed key of principal {by} unseals to other bytes")),
                                     (false, false) => ok("rejected as expected"),
